@@ -262,6 +262,10 @@ func (s *SCCP) evalInstr(v ssa.Value, n *VNode) AV {
 			}
 			return avTop
 		}
+		switch calleeName(&x.Call) {
+		case "fmt.Errorf", "errors.New", "golang.org/x/xerrors.Errorf", "golang.org/x/xerrors.New":
+			return avNonNil // error constructors never return nil
+		}
 		return avTop
 	case *ssa.Extract:
 		if c, ok := x.Tuple.(*ssa.Call); ok {
